@@ -5,7 +5,7 @@
 (* 960 x 960 start-position constructors.                                  *)
 (* Same reporting convention as Trace_Board.                               *)
 (***************************************************************************)
-EXTENDS TextParse, Json, IOUtils
+EXTENDS ImplParse, Json, IOUtils
 
 Recs == ndJsonDeserialize(IOEnv.TRACE)
 NRecs == Len(Recs)
@@ -58,6 +58,10 @@ TraceBuild == /\ IsEvent("build") /\ UNCHANGED canon
         \* accepted boards round-trip through the builder
         \cup IF_(ok /\ (r.rb.k # "ok" \/ ~r.rb.eq), {<<"C09", "from-board-round-trip", r.gen, r.rb.k>>})
         \cup IF_(r.gen = "accepted" /\ ~ok, {<<"C09", "builder-image-of-accepted-board-rejected", r.err>>})
+        \* strict conformance with the implementation-shaped model of build() (predicts more than C06/C09 state: EXT)
+        \cup (LET mdl == BuildImpl(bs) IN
+              IF_(r.k # "panic" /\ (ok # (mdl.k = "ok") \/ (~ok /\ mdl.k = "err" /\ r.err # mdl.err)),
+                  {<<"EXT", "builder-model-conformance", r.gen, r.k, r.err, mdl.k, IF mdl.k = "err" THEN mdl.err ELSE "">>}))
      IN /\ base' = IF r.gen = "accepted" THEN (IF ok THEN bs ELSE <<>>) ELSE base
         /\ Obs(ms)
 
@@ -65,34 +69,15 @@ TraceBuild == /\ IsEvent("build") /\ UNCHANGED canon
 \* checks of one entry point (mode 0 from_fen(.., false), 1 from_fen(.., true), 2 FromStr) on one text
 ParseChecks(r, mode) ==
   LET x == r.res[mode + 1]  cp == r.cp  ok == x.k = "ok"
-      f == Fields(cp)
-      d0 == IF mode \in {0, 2} THEN Denote(cp, 0) ELSE [ok |-> FALSE]
-      d1 == IF mode \in {1, 2} THEN Denote(cp, 1) ELSE [ok |-> FALSE]
-      ds == (IF d0.ok THEN {d0.bs} ELSE {}) \cup (IF d1.ok THEN {d1.bs} ELSE {})
       got == PosOf(x.st)
-      \* clause E set-up
-      fb == Fields(r.base)
-      canonOk == Len(r.base) > 0 /\ canon[1] = r.base /\ canon[mode + 2]
-      diff == IF Len(f) = 6 /\ Len(fb) = 6 THEN {i \in 1..6 : f[i] # fb[i]} ELSE {}
-      i == IF Cardinality(diff) = 1 THEN CHOOSE j \in diff : TRUE ELSE 0
-      aspect == IF i = 1 THEN "board" ELSE IF i = 3 THEN "rights" ELSE IF i = 4 THEN "ep" ELSE IF i = 5 THEN "hmc" ELSE IF i = 6 THEN "fmn" ELSE "none"
-      \* a castling field no reader of this notation can accept: foreign characters, two rights for one (colour, wing),
-      \* a letter on the king's own file (the placement is the base's, hence sound)
-      crBad(md) == ~CrAlphabetOk(f[3], md) \/ (PlacementSound(f[1]) /\ ~CrWellFormed(f[3], PlacementOf(f[1]), md))
-      crBadAll == i = 3 /\ (IF mode = 2 THEN crBad(0) /\ crBad(1) ELSE crBad(mode))
-      fieldBad == i # 0 /\ (FieldMalformed(f, i, mode) \/ crBadAll \/ (ds # {} /\ \A bs \in ds : WrongAspects(bs) = {aspect}))
-      truncated == Len(r.base) > 0 /\ Len(f) >= 1 /\ Len(f) <= 5 /\ Len(fb) = 6 /\ \A j \in 1..Len(f) : f[j] = fb[j]
-      extended == Len(r.base) > 0 /\ Len(f) > 6 /\ Len(fb) = 6 /\ SubSeq(f, 1, 6) = fb /\ \A j \in 7..Len(f) : Len(f[j]) > 0
+      baseOk == Len(r.base) > 0 /\ canon[1] = r.base /\ canon[mode + 2]
   IN
   IF_(x.k = "panic", {<<"C08", "parser-panicked", mode, r.t>>})
-  \cup IF_(ok /\ ~Structural(cp), {<<"C08", "accepted-text-without-six-fields-and-8x8-placement", mode, r.t>>})
-  \cup IF_(ok /\ ds # {} /\ \A bs \in ds : got # AsPos(bs), {<<"C08", "board-is-not-the-position-the-text-denotes", mode, r.t>>})
-  \cup IF_(ok /\ OneKingEach(got) /\ ~Valid(got), {<<"C06", "parser-accepts-unsound-position", mode, r.t, Broken(got)>>})
-  \cup IF_(ok /\ ~OneKingEach(got), {<<"C06", "parser-accepts-unsound-position", mode, r.t, {"kings"}>>})
+  \cup {Append(v, r.t) : v \in ParseClauses(cp, r.base, baseOk, mode, x.k, x.err, got)}
   \cup IF_(ok /\ x.hb # x.st.h, {<<"C10", "hash-of-parsed-board-differs-from-rebuilt-board", mode, r.t, x.st.h, x.hb>>})
-  \cup IF_(canonOk /\ fieldBad /\ (x.k # "err" \/ x.err # FieldError(i)), {<<"C08", "error-does-not-name-the-bad-field", mode, i, x.k, x.err, r.t>>})
-  \cup IF_(canonOk /\ truncated /\ (x.k # "err" \/ x.err # "MissingField"), {<<"C08", "too-few-fields-not-reported", mode, x.k, x.err, r.t>>})
-  \cup IF_(canonOk /\ extended /\ (x.k # "err" \/ x.err # "TooManyFields"), {<<"C08", "too-many-fields-not-reported", mode, x.k, x.err, r.t>>})
+  \cup (LET mdl == ParseImpl(cp, mode) IN
+        IF_(x.k # "panic" /\ (ok # (mdl.k = "ok") \/ (~ok /\ mdl.k = "err" /\ x.err # mdl.err) \/ (ok /\ mdl.k = "ok" /\ got # mdl.pos)),
+            {<<"EXT", "parser-model-conformance", mode, r.t, x.k, x.err, mdl.k, IF mdl.k = "err" THEN mdl.err ELSE "">>}))
 
 TraceParse == /\ IsEvent("parse")
   /\ LET r == Recs[l]
